@@ -807,6 +807,7 @@ func (st *State) stringOfBytes(snap map[string]string, b Term) Term {
 		st.sc.declFun(fn, []Sort{SInt, SInt, SInt}, SStr)
 		st.sc.emit("(assert (forall ((a Int) (o Int) (l Int)) (! (=> (>= l 0) (= (gstr.len (%[1]s a o l)) l)) :pattern ((%[1]s a o l)))))", fn)
 		st.sc.emit("(assert (forall ((a Int) (o Int) (l Int) (k Int)) (! (=> (and (<= 0 k) (< k l)) (= (gstr.at (%[1]s a o l) k) (%[2]s a o k))) :pattern ((gstr.at (%[1]s a o l) k)))))", fn, esym)
+		st.sc.emit("(assert (forall ((a Int) (o Int)) (! (= (%[1]s a o 0) str_empty) :pattern ((%[1]s a o 0)))))", fn)
 	}
 	if bi, ok := st.sliceBase[b.S]; ok {
 		return app(SStr, fn, slArr(bi.Base), add(slOff(bi.Base), bi.Delta), slLen(b))
